@@ -25,6 +25,21 @@ def main():
         got = "discharged" if sts == {"discharged"} else ("refuted" if "refuted" in sts else "unknown")
         print("planted", planted, "->", got, "(want", want + ")")
         ok = ok and got == want
+    # engine regression cases: every `:ok` contract is discharged, every `:bad*` contract leaves an obligation open
+    import contracts.selfcases  # noqa: F401
+    for key in sorted(k for k in CONTRACTS if k.startswith("selfcases.cases.") and ":" in k):
+        ex = symexec.Executor(w, prop="SELF")
+        ex.spec_modules = [w.module("contracts.selfcases")]
+        try:
+            ex.verify_function(key.split(":")[0], contract=CONTRACTS[key])
+            solve.solve_all(ex.obligations, timeout_s=10, want_model=False)
+            failed = sorted(n.split("/", 2)[2] for n, g in solve.group(ex.obligations).items() if solve.status_of(g) != "discharged")
+        except Exception as e:  # noqa: BLE001
+            failed = [f"engine: {type(e).__name__}: {e}"]
+        want_ok = key.endswith(":ok")
+        good = (not failed) if want_ok else bool(failed) and not any(f.startswith("engine:") for f in failed)
+        print(("ok  " if good else "BAD ") + key.split(".")[-1], "->", "discharged" if not failed else f"open: {failed[:3]}")
+        ok = ok and good
     r = subprocess.run(["/venv/bin/python", "-c", "import aw_core, aw_datastore, aw_transform, aw_query; print('repo importable')"],
                        capture_output=True, text=True, cwd="/repo")
     print(r.stdout.strip() or r.stderr.strip()[-300:])
